@@ -596,6 +596,51 @@ func runProperty(repo, prop, tier, evid, knownPath string) int {
 		return finish(prop, tier, evid, known, []*RuleResult{r}, nil, "load failure", start, nil)
 	}
 	c := newRC(prog, tier)
+	return runRules(c, prog, repo, prop, tier, evid, known, rules, start)
+}
+
+// runPropertiesShared (self-test tooling only, never a registered check): several properties on one loaded program and one
+// walk of it; evidence goes to <evidDir>/<id>.json; the exit code is 1 if any of them reports a violation.
+func runPropertiesShared(repo string, props []string, tier, evidDir, knownPath string) int {
+	known, err := loadKnown(knownPath)
+	if err != nil {
+		fmt.Println("cannot read known findings:", err)
+		return 2
+	}
+	registerExtras()
+	go func() {
+		time.Sleep(40 * time.Minute)
+		fmt.Println("VIOLATION property=" + strings.Join(props, ",") + " replay=timeout")
+		os.Exit(1)
+	}()
+	start := time.Now()
+	prog, err := loadProgram(repo, "", nil)
+	rc := 0
+	if err != nil {
+		for _, prop := range props {
+			r := &RuleResult{Rule: "LOAD", Kind: "LOAD", Doc: "the working tree loads and type-checks"}
+			r.fail("load", "", err.Error())
+			if finish(prop, tier, evidDir+"/"+prop+".json", known, []*RuleResult{r}, nil, "load failure", start, nil) != 0 {
+				rc = 1
+			}
+		}
+		return rc
+	}
+	c := newRC(prog, tier)
+	for _, prop := range props {
+		rules, ok := propertyRules[prop]
+		if !ok {
+			fmt.Println("unknown property", prop)
+			return 2
+		}
+		if runRules(c, prog, repo, prop, tier, evidDir+"/"+prop+".json", known, rules, time.Now()) != 0 {
+			rc = 1
+		}
+	}
+	return rc
+}
+
+func runRules(c *RC, prog *Program, repo, prop, tier, evid string, known *KnownFindings, rules []ruleFn, start time.Time) int {
 	var results []*RuleResult
 	for _, rf := range rules {
 		func() {
@@ -606,7 +651,13 @@ func runProperty(repo, prop, tier, evid, knownPath string) int {
 					results = append(results, r)
 				}
 			}()
-			results = append(results, rf(c))
+			t0 := time.Now()
+			rr := rf(c)
+			rr.Millis = time.Since(t0).Milliseconds()
+			if os.Getenv("DBFTLINT_DEBUG_TIMES") != "" {
+				fmt.Fprintf(os.Stderr, "TIME %s %s %dms\n", prop, rr.Rule, rr.Millis)
+			}
+			results = append(results, rr)
 		}()
 	}
 	// undecided constructs in functions reachable from the API fail the check
@@ -640,8 +691,13 @@ func runProperty(repo, prop, tier, evid, knownPath string) int {
 			ai.ok(fmt.Sprintf("%d guard obligations re-proven on the inline walk", c.auditN))
 		}
 		results = append(results, ai)
+		t1 := time.Now()
 		results = append(results, ruleSSAAudit(c))
+		t2 := time.Now()
 		results = append(results, thoroughReload(repo, prop, results)...)
+		if os.Getenv("DBFTLINT_DEBUG_TIMES") != "" {
+			fmt.Fprintf(os.Stderr, "TIME %s AUDIT-SSA %dms RELOAD %dms\n", prop, t2.Sub(t1).Milliseconds(), time.Since(t2).Milliseconds())
+		}
 	}
 	nsites, nsnaps := 0, 0
 	for _, ss := range c.A.FnSites {
